@@ -26,6 +26,30 @@ CHECKS = {
                 ref="5/C04"),
 }
 
+CHECKS.update({
+    "C02": dict(text="BeliefPropagation (junction-tree construction, calibrate, max_calibrate, out-of-clique query) is executed symbolically on "
+                     "connected BN / MarkovNetwork / FactorGraph / JunctionTree models with all table entries symbolic and positive (2 symbolic CPDs "
+                     "on 4-node BNs); clique and sepset beliefs are shown proportional to the (max-)marginals of the joint oracle, adjacent cliques "
+                     "agree, and queries equal the conditional of the joint. Tolerance tests inside calibration fork on their exact numpy formula.",
+                note="Bounds: <=4 variables, cards<=3, |Q|<=2, |E|<=1; entries >0; max-calibration only on <=3 binary variables.", ref="5/C02"),
+    "C03": dict(text="VariableElimination.map_query (BN and MarkovNetwork) and BeliefPropagation.map_query run with all entries symbolic; the arg-max "
+                     "forks on symbolic comparisons, and on every path z3 shows joint(a*,e) >= joint(a,e) for every alternative assignment a "
+                     "(ties free); keys and state names checked.",
+                note="Bounds: <=4 nodes (4-node BNs: 2 symbolic CPDs), query tables of <=4 (quick) / 9 (thorough) joint states, |E|<=1; max_marginal not covered.",
+                ref="5/C03"),
+    "C05": dict(text="TabularCPD construction, get_values, copy, to_factor, normalize, marginalize, reduce, reorder_parents (in/out of place) run on "
+                     "symbolic 2-D tables for every parent permutation/subset; named conditionals, the 2-D layout and all state names are compared "
+                     "with the defining formulas; is_valid_cpd and BayesianNetwork.check_model are explored with a symbolic column-sum error "
+                     "against the tolerance band, and check_model on graphs wrong in exactly one respect.",
+                note="Bounds: child + <=3 parents, cards<=3; positive entries for normalising operations.", ref="5/C05"),
+    "C14": dict(text="BN->MarkovNetwork/JunctionTree, MarkovNetwork->FactorGraph/JunctionTree, FactorGraph->MarkovNetwork/JunctionTree run with all factor "
+                     "entries symbolic, including lists with same-scope and possibly-equal factors (equality is a branch of the hash model): the product "
+                     "of target factors equals the product of source factors for every named assignment, partition functions agree, and the target is "
+                     "structurally valid (moral graph, tree, running intersection, scope cover); triangulation heuristics H1-H6/explicit orders "
+                     "checked against the chord definition on concrete graphs <=5 nodes.",
+                note="Bounds: <=4 variables (5 for triangulation), cards<=3. Two known findings are listed in known_findings.txt.", ref="5/C14"),
+})
+
 NOT_APPLICABLE = {
     "C19": "statistic, dof and p-value are produced inside pandas.groupby / numpy.bincount / scipy.stats.chi2_contingency / chi2.cdf "
            "(compiled kernels, special functions); no symbolic value survives into them and an FP + special-function encoding is out of "
